@@ -19,7 +19,8 @@ import (
 
 // C18 — variables are discovered exactly and names resolve case-insensitively.
 
-var c18Idents = []string{"a", "A", "b", "\"a b\"", "Max", "\"Max\"", "if"}
+// the last two: quoted identifiers that spell a constant / an operator word are still identifiers (round M)
+var c18Idents = []string{"a", "A", "b", "\"a b\"", "Max", "\"Max\"", "if", "\"true\"", "\"in\""}
 
 // expression trees with identifiers in every syntactic position
 func c18Trees() []*enode {
@@ -715,7 +716,7 @@ func init() {
 	fw.Register(&fw.Check{
 		ID:    "C18",
 		Level: "model_checking",
-		Rule: "(a) expression trees with identifiers from {a, A, b, \"a b\", Max, \"Max\", if} in every syntactic position (operand, call argument, call name, index, next to equal string constants), 4 printing styles, plus sums of k distinct identifiers and identifiers of k characters for k up to 129: VariableNames() vs the variable leaves in order of first occurrence; automatic variables with three pre-populations of the default collection, and the same through the CreateVariables entry point on a caller's collection with automatic variables off; automatic variables off => VAR_NOT_FOUND/FUNC_NOT_FOUND naming the identifier; every call expression with an explicit empty function collection => FUNC_NOT_FOUND; a variable removed by a function of the expression between two reads of its name is missing (or resolves to the other letter-case entry) at the later read; " +
+		Rule: "(a) expression trees with identifiers from {a, A, b, \"a b\", Max, \"Max\", if, \"true\", \"in\"} in every syntactic position (operand, call argument, call name, index, next to equal string constants), 4 printing styles, plus sums of k distinct identifiers and identifiers of k characters for k up to 129: VariableNames() vs the variable leaves in order of first occurrence; automatic variables with three pre-populations of the default collection, and the same through the CreateVariables entry point on a caller's collection with automatic variables off; automatic variables off => VAR_NOT_FOUND/FUNC_NOT_FOUND naming the identifier; every call expression with an explicit empty function collection => FUNC_NOT_FOUND; a variable removed by a function of the expression between two reads of its name is missing (or resolves to the other letter-case entry) at the later read; " +
 			"(b) every sequence of <=3 (thorough 4) template pieces (all section spellings, text containing the words if/unless): MustacheParser.VariableNames(), default-variable creation and CreateVariables on a caller's map; (c) every history up to the depth bound over 15 operations (incl. a caller writing in place into the value object of the first / last entry) on VariableCollection and FunctionCollection against an ordered-list model (first match wins, case-insensitive), and the histories one step shorter with the names replaced by a case pair of different UTF-8 widths and by an accented letter, its capital and the bare letter; non-trivial = >=2 variables / histories of >=2 steps",
 		Assume: []string{"names differing only in letter case may be merged or reported separately", "Remove(i) with i out of range is not exercised"},
 		Spaces: func(tier string) []fw.Space {
